@@ -353,6 +353,84 @@ theorem C13_skeleton_event_Trigger : skel_event_Trigger = ["return"] := by decid
 theorem C13_skeleton_event_OnTrigger : skel_event_OnTrigger = ["func{", "}func", "helper OnUpdate", "return"] := by
   decide
 
+/-! ### the callback list (ds/list_impl.go)
+
+The model treats `PushBack`, `Remove` and `Values` of the callback list as atomic.  That is what the
+thread-safe list does: each takes the list mutex around the *whole* operation — in particular
+`Values` holds the read lock during the whole walk (`list.Values` → `list.Range` → `element.Next`).
+An unsubscribe removes its element outside the value mutex and clears the element's pointers, so a
+walk without the lock could end early and lose the subscribers behind the removed one. -/
+
+theorem C13_skeleton_list_Values : skel_threadSafeList_Values =
+    ["rlock t.mutex", "defer runlock t.mutex", "call t.list.Values", "return"] := by decide
+
+theorem C13_skeleton_list_PushBack : skel_threadSafeList_PushBack =
+    ["lock t.mutex", "defer unlock t.mutex", "call t.list.PushBack", "return"] := by decide
+
+theorem C13_skeleton_list_Remove : skel_threadSafeList_Remove =
+    ["lock t.mutex", "defer unlock t.mutex", "call t.list.Remove", "return"] := by decide
+
+theorem C13_skeleton_list_Range : skel_threadSafeList_Range =
+    ["rlock t.mutex", "defer runlock t.mutex", "call t.list.Range"] := by decide
+
+theorem C13_skeleton_list_inner_Values : skel_list_Values = ["func{", "}func", "call l.Range", "return"] := by decide
+
+theorem C13_skeleton_list_inner_Range : skel_list_Range = ["for{", "call element.Next", "}for"] := by decide
+
+/-! ### DerivedSet: inherited mutations are one more writer of the same protocol
+
+`derivedSet.inheritMutations` is the writer program again (`lock s.mutex` … per-callback
+`LockExecution`/`Invoke`/`UnlockExecution`), its update a `SetOp.compute` (always notifies).  The
+theorems cover the subscribers of a DerivedSet only because `s.mutex` there *is* the embedded
+`set.mutex` that `Apply`/`Compute`/`Replace` hold — i.e. because `derivedSet` declares no mutex of its
+own (`C13_skeleton_type_derivedSet`). -/
+
+theorem C13_skeleton_derivedSet_inheritMutations : skel_derivedSet_inheritMutations =
+    ["lock s.mutex", "defer unlock s.mutex", "call s.applyInheritedMutations", "for{",
+      "call registeredCallback.LockExecution", "if{", "call registeredCallback.Invoke",
+      "call registeredCallback.UnlockExecution", "}if", "}for", "return"] := by decide
+
+theorem C13_skeleton_derivedSet_applyInheritedMutations : skel_derivedSet_applyInheritedMutations =
+    ["lock s.readableSet.mutex", "defer unlock s.readableSet.mutex", "call mutations.AddedElements().Range",
+      "call mutations.DeletedElements().Range", "helper Apply", "call s.uniqueUpdateID.Next",
+      "call s.updateCallbacks.Values", "return"] := by decide
+
+/-! ### type facts: which mutex a selector resolves to, and the width of the update id
+
+A field added to a struct can shadow an embedded one without any function body changing; the model's
+`U`, `V`, `E` are exactly these fields.  Update ids are unbounded naturals in the model (`Sh.uid`,
+`Cb.last : Nat`): justified by `uniqueID` being 64 bits wide (2⁶⁴ updates are out of reach); with a
+narrower type the id of a real change could wrap onto the `lastUpdate` a callback recorded earlier and
+`LockExecution` would drop the change. -/
+
+theorem C13_skeleton_type_variable : skel_type_variable =
+    ["struct", "embedded *readableVariable[Type]", "transformationFunc func(currentValueType,newValueType)Type",
+      "updateOrderMutex sync.Mutex"] := by decide
+
+theorem C13_skeleton_type_readableVariable : skel_type_readableVariable =
+    ["struct", "value Type", "registeredCallbacks ds.List[*callback[func(prevValue,newValueType)]]",
+      "uniqueUpdateID uniqueID", "valueMutex sync.RWMutex"] := by decide
+
+theorem C13_skeleton_type_set : skel_type_set =
+    ["struct", "embedded *readableSet[ElementType]", "mutex sync.Mutex"] := by decide
+
+theorem C13_skeleton_type_readableSet : skel_type_readableSet =
+    ["struct", "updateCallbacks ds.List[*callback[func(ds.SetMutations[ElementType])]]", "uniqueUpdateID uniqueID",
+      "value ds.Set[ElementType]", "mutex sync.RWMutex", "embedded ds.ReadableSet[ElementType]"] := by decide
+
+theorem C13_skeleton_type_derivedSet : skel_type_derivedSet =
+    ["struct", "embedded *set[ElementType]", "setArithmetic ds.SetArithmetic[ElementType]"] := by decide
+
+theorem C13_skeleton_type_callback : skel_type_callback =
+    ["struct", "Invoke FuncType", "unsubscribed bool", "lastUpdate uniqueID", "executionMutex sync.Mutex"] := by decide
+
+theorem C13_skeleton_type_uniqueID : skel_type_uniqueID = ["uint64"] := by decide
+
+theorem C13_skeleton_type_event : skel_type_event = ["struct", "embedded Variable[bool]"] := by decide
+
+theorem C13_skeleton_type_threadSafeList : skel_type_threadSafeList =
+    ["struct", "embedded *list[T]", "mutex sync.RWMutex"] := by decide
+
 end Skel
 
 end Hive.Reactive
